@@ -257,4 +257,4 @@ def levels(tier: str) -> list[dict]:
 
 
 def run(tier: str) -> dict:
-    return common.run_levels(levels(tier))
+    return common.run_levels(common.tiered(levels, tier))
